@@ -97,17 +97,38 @@ package syntax
 //@ func evalExpr(ctx, v)
 //@   tags C18, C10
 // (config comes from parseEvalConfig, which always sets `scopes`)
+// x-c17 — the scope a sandbox gets. The scope handed to the evaluated source binds `//` in EVERY case (also for an
+// empty stdlib tuple, also when the user scope is empty), so the fallback of PackageExpr.Eval to the full library
+// cannot be reached from a sandbox: obligation pre@syntax.EvalWithScope#0.lib. And `//` is bound to EXACTLY the
+// configured library — the value of config.stdlib evaluated in the empty scope when one is configured, otherwise
+// the `//` of the safe scope (settled(stdSafeScopeVar): the content of that variable once its Once has run) — unless
+// the caller's own config.scope rebinds the name `//` (then it is what the caller passed: allowed by the property;
+// confirmed: //eval.evaluator((scope: ('//': (a: 1)))).eval('//a') = 1). Vocabulary: sc/shas/sget/emptyScp/evalv
+// (97_pattern), hasattr (70_fs), enumof (95_auth). lastcall("syntax.EvalWithScope", 3) = the scope argument of the call.
 //@ func contextualEval(ctx, config, v)
 //@   tags C18, C10
 //@   requires config.scopes != nil
+//@   returns (val, err)
+//@   loop 0 invariant[C18] libbound: shas(sc(scope), "//")
+//@   loop 0 invariant[C18] libexact: hasattr(config.scopes, "//") || sget(sc(scope), "//") == (config.stdlib != nil ? evalv(config.stdlib, ctx, emptyScp) : sget(sc(settled(stdSafeScopeVar)), "//"))
+//@   ensures[C18] exactlib: err == nil ==> hasattr(config.scopes, "//") || sget(sc(lastcall("syntax.EvalWithScope", 3)), "//") == (config.stdlib != nil ? evalv(config.stdlib, ctx, emptyScp) : sget(sc(settled(stdSafeScopeVar)), "//"))
+// parseEvalConfig keeps what was configured: a configured stdlib — also the EMPTY tuple — is never replaced by the
+// default, an absent one is nil (= default safe library in contextualEval).
 //@ func parseEvalConfig(configArg)
 //@   tags C18, C10
 //@   returns (cfg, err)
 //@   ensures err == nil ==> cfg != nil && cfg.scopes != nil
+// (tr(t) = the attribute map of the GenericTuple t, tmhas/tmget its lookup: vocabulary of 72_order2, the one the
+//  contract of (*GenericTuple).Get speaks)
+//@   ensures[C18] stdlibkept: err == nil ==> let t : configArg.(*rel.GenericTuple) in (tmhas(tr(t), "stdlib") ? cfg.stdlib == tmget(tr(t), "stdlib") : cfg.stdlib == nil)
+//@   ensures[C18] scopekept: err == nil ==> let t : configArg.(*rel.GenericTuple) in (tmhas(tr(t), "scope") ==> cfg.scopes == tmget(tr(t), "scope"))
 //@ func SafeStdScopeTuple$8(ctx, evalConfig, value)
 //@   tags C18, C10
+// x-c17: whoever evaluates source either holds the authority or passes a scope that binds `//` (otherwise
+// PackageExpr.Eval would silently substitute the full library for the missing binding).
 //@ func EvalWithScope(ctx, path, source, scope)
 //@   tags C18, C10
+//@   requires[C18] lib: auth || shas(sc(scope), "//")
 // ASSUMED about the compiler (body not verified; NOT a C18 unit, so the authority inference looks through it):
 // a successful compilation yields an expression
 //@ func Compile(ctx, filepath, source)
@@ -116,10 +137,17 @@ package syntax
 //@   ensures err == nil ==> expr != nil
 
 // the safe library and its constructor
+// x-c17: what SafeStdScope returns is the content stdSafeScopeVar has once ITS OWN Once (stdSafeScopeOnce, see the
+// `guarded` declarations in verif_contracts_c11.go) has run, and that content binds `//`. `once_lib` is proved in the
+// literal and assumed after stdSafeScopeOnce.Do(literal) returned (engine/onceinv.go: one literal per Once, every
+// store to the variable inside it — checked over the whole repository).
 //@ func SafeStdScope()
 //@   ensures[C18] c18unit: true
+//@   ensures[C18] haslib: shas(sc(result), "//")
+//@   ensures[C18] thelib: sc(result) == sc(settled(stdSafeScopeVar))
 //@ func SafeStdScope$1()
 //@   ensures[C18] c18unit: true
+//@   ensures[C18] once_lib: shas(sc(stdSafeScopeVar), "//")
 //@ func SafeStdScopeTuple()
 //@   tags C18
 //@   abstract body
